@@ -247,6 +247,9 @@ impl<const N: usize> AEADCipherCodec<N> {
         let (server_session_id, packet_id, text) = decrypt_message(self.kind, src, context)?;
         let mut packet = BytesMut::with_capacity(text.len());
         packet.extend_from_slice(text);
+        if packet.remaining() < 1 + 8 + 8 + 2 {
+            bail!("packet too short, at least {} bytes of content, but found {} bytes", 1 + 8 + 8 + 2, packet.remaining());
+        }
         let stream_type = packet.get_u8();
         let expect_stream_type = context.stream_type.expect_u8();
         if stream_type != expect_stream_type {
@@ -255,6 +258,9 @@ impl<const N: usize> AEADCipherCodec<N> {
         aead_2022::validate_timestamp(packet.get_u64()).map_err(anyhow::Error::msg)?;
         let client_session_id = packet.get_u64();
         let padding_length = packet.get_u16();
+        if packet.remaining() < padding_length as usize {
+            bail!("invalid padding length {}, only {} bytes remain", padding_length, packet.remaining());
+        }
         if padding_length > 0 {
             packet.advance(padding_length as usize);
         }
@@ -327,6 +333,9 @@ impl<const N: usize> AEADCipherCodec<N> {
         }
         aead_2022::validate_timestamp(packet.get_u64()).map_err(anyhow::Error::msg)?;
         let padding_length = packet.get_u16();
+        if packet.remaining() < padding_length as usize {
+            bail!("invalid padding length {}, only {} bytes remain", padding_length, packet.remaining());
+        }
         if padding_length > 0 {
             packet.advance(padding_length as usize);
         }
